@@ -46,11 +46,24 @@ func IntCond(c Constraint) *Cond {
 	return &Cond{Kind: CInt, C: c.Canon()}
 }
 
-func RealGT(a, b Expr) *Cond { return &Cond{Kind: CRealGT, E: Sub(a, b)} }
-func RealGE(a, b Expr) *Cond { return &Cond{Kind: CRealGE, E: Sub(a, b)} }
+func RealGT(a, b Expr) *Cond {
+	if HasNaN(a) || HasNaN(b) {
+		return False()
+	}
+	return &Cond{Kind: CRealGT, E: Sub(a, b)}
+}
+func RealGE(a, b Expr) *Cond {
+	if HasNaN(a) || HasNaN(b) {
+		return False()
+	}
+	return &Cond{Kind: CRealGE, E: Sub(a, b)}
+}
 func RealLT(a, b Expr) *Cond { return RealGT(b, a) }
 func RealLE(a, b Expr) *Cond { return RealGE(b, a) }
 func RealEQ(a, b Expr) *Cond {
+	if HasNaN(a) || HasNaN(b) {
+		return False()
+	}
 	d := Sub(a, b)
 	// sign-canonical
 	if len(d.terms) > 0 && d.terms[0].c.Sign() < 0 {
@@ -59,6 +72,9 @@ func RealEQ(a, b Expr) *Cond {
 	return &Cond{Kind: CRealEQ, E: d}
 }
 func AbsLE(d Expr, tau Expr) *Cond {
+	if HasNaN(d) || HasNaN(tau) {
+		return False()
+	}
 	if len(d.terms) > 0 && d.terms[0].c.Sign() < 0 {
 		d = Neg(d)
 	}
@@ -322,9 +338,9 @@ func (c *Cond) mapParts(fp func(Poly) Poly, fe func(Expr) Expr) *Cond {
 	case CInt:
 		return IntCond(Constraint{fp(c.C.P), c.C.Op})
 	case CRealGT:
-		return &Cond{Kind: CRealGT, E: fe(c.E)}
+		return RealGT(fe(c.E), Expr{})
 	case CRealGE:
-		return &Cond{Kind: CRealGE, E: fe(c.E)}
+		return RealGE(fe(c.E), Expr{})
 	case CRealEQ:
 		return RealEQ(fe(c.E), Expr{})
 	case CAbsLE:
@@ -575,6 +591,14 @@ func (a *Atom) eval(env *EvalEnv) (float64, error) {
 			return math.Gamma(args[0]), nil
 		case "isnan", "isinf":
 			return 0, nil
+		}
+		switch a.Name {
+		case "const_+Inf":
+			return math.Inf(1), nil
+		case "const_-Inf":
+			return math.Inf(-1), nil
+		case "const_NaN":
+			return math.NaN(), nil
 		}
 		return 0, fmt.Errorf("unknown function %s", a.Name)
 	case APow:
